@@ -248,6 +248,9 @@ func (a *mapAd) Do(o *model.Op) (r model.Res) {
 			for i := range o.Muts {
 				if o.Muts[i].At == n-1 {
 					mo := o.Muts[i].Op
+					if o.Muts[i].Cur {
+						mo.Key = r.Vis[len(r.Vis)-1].K
+					}
 					a.Do(&mo)
 				}
 			}
@@ -338,6 +341,9 @@ func (a *mapOfAd[K]) Do(o *model.Op) (r model.Res) {
 			for i := range o.Muts {
 				if o.Muts[i].At == n-1 {
 					mo := o.Muts[i].Op
+					if o.Muts[i].Cur {
+						mo.Key = r.Vis[len(r.Vis)-1].K
+					}
 					a.Do(&mo)
 				}
 			}
@@ -493,6 +499,9 @@ func (a *cacheAd) Do(o *model.Op) (r model.Res) {
 			for i := range o.Muts {
 				if o.Muts[i].At == n-1 {
 					mo := o.Muts[i].Op
+					if o.Muts[i].Cur {
+						mo.Key = r.Vis[len(r.Vis)-1].K
+					}
 					a.Do(&mo)
 				}
 			}
@@ -664,6 +673,9 @@ func (a *cacheOfAd[K]) Do(o *model.Op) (r model.Res) {
 			for i := range o.Muts {
 				if o.Muts[i].At == n-1 {
 					mo := o.Muts[i].Op
+					if o.Muts[i].Cur {
+						mo.Key = r.Vis[len(r.Vis)-1].K
+					}
 					a.Do(&mo)
 				}
 			}
